@@ -343,6 +343,11 @@ def plain_status(run, rng, cfg):
         def on_status(obj_):
             rec.statuses.append(obj_)
             rec.log.emit('cb.status')
+            if cfg.get('status_handler_ignores'):
+                # a handler may hide the response from the ordinary listeners;
+                # the query itself goes on (ping, close, exit callback)
+                from minecraft.exceptions import IgnorePacket
+                raise IgnorePacket
 
         def on_ping(ms):
             rec.pings.append(ms)
@@ -518,7 +523,9 @@ def run(run):
                 # known version (proxies report such things); the error must
                 # still name the protocol number the server reported
                 v['name'] = rng.choice(('srv', '1.12.2', '14w04a', '1.8.9',
-                                        '1.18.1', 'BungeeCord 1.8.x-1.18.x'))
+                                        '1.18.1', 'BungeeCord 1.8.x-1.18.x',
+                                        'Paper 1.8.8 (100% vanilla)',
+                                        'Via %s {0} {name} %(x)d'))
             beh = ('reply', {'version': v})
         elif bk == 'mismatch-known':
             beh = ('reply', {'version': {'name': 'old', 'protocol':
@@ -527,7 +534,8 @@ def run(run):
             v = {'protocol': rng.choice(
                 (-1, 99999, 2 ** 31, 2 ** 31 - 1, 758, 46, 1 << 30))}
             if rng.random() < 0.5:
-                v['name'] = rng.choice(('1.12.2', '1.18.1', '21w44a'))
+                v['name'] = rng.choice(('1.12.2', '1.18.1', '21w44a',
+                                        '50% {} %d'))
             beh = ('reply', {'version': v})
         elif bk == 'no-version':
             beh = ('reply', rng.choice(({'description': 'x'},
@@ -574,6 +582,8 @@ def run(run):
                 if not run.mine(j):
                     continue
                 cfg = {'prior': rep % 3 == 1,
+                       'status_handler_ignores': hs_mode == 'custom' and
+                       rep % 2 == 1,
                        'handle_status': hs_mode, 'handle_ping': hp_mode,
                        'A': rng.sample(sup, rng.choice((1, 2, 5))),
                        'status': {'version': {'name': 'v%d' % j,
